@@ -497,6 +497,8 @@ class Ev:
         self.zero_shapes = []         # shapes passed to zeros(..) constructors during the last evaluation
         self.outer_locals = []        # per enclosing summarised for-loop: ids of the locals that existed before it
         self.guards, self.loops = [], []   # path condition / enclosing loops while executing loop bodies for effect
+        self.tymaps = []                   # per inlined generic function: {type parameter name: concrete type} from the call's generic arguments
+        self._gargs = None                 # generic arguments of the call being inlined (set by the call site, consumed by apply_fn)
         self.path = []                     # conditions already decided on the current forked path (for pruning re-tests)
 
     # ---- function summaries
@@ -509,6 +511,10 @@ class Ev:
         if depth > self.max_depth:
             raise Unsupported("inlining depth exceeded at " + name)
         env = {}
+        gargs, self._gargs = self._gargs, None
+        tymap = {}
+        if gargs and r.get("generics") and len(gargs) == len(r["generics"]):
+            tymap = {g: self.concrete_ty(t) for g, t in zip(r["generics"], gargs) if not g.startswith("'")}
         if len(r["params"]) != len(args):
             raise Unsupported("arity mismatch calling " + name)
         for p, a in zip(r["params"], args):
@@ -519,13 +525,34 @@ class Ev:
             self.guards, self.loops, self.path = list(self.guards), list(self.loops), list(self.path)
         else:
             self.guards, self.loops, self.path = [], [], list(self.path) if depth else []
+        self.tymaps.append(tymap)
         try:
             v = strip_early(self.eval(r["body"], env, depth + 1))
             return self.collapse(v) if collapse else v
         except Return as ret:
             return ret.value
         finally:
+            self.tymaps.pop()
             self.guards, self.loops, self.path = saved
+
+    def concrete_ty(self, t):
+        """Type string `t` with the type parameters of the function being inlined replaced by the concrete types it was called with."""
+        tm = self.tymaps[-1] if self.tymaps else {}
+        for g, c in tm.items():
+            t = re.sub(r"(?<![\w:])%s(?![\w:])" % re.escape(g), lambda m, c=c: c, t)
+        return t
+
+    def resolve_generic(self, trait_item, gargs):
+        """In-crate impl function for a call to a trait item whose Self type is a type parameter of the function being inlined (`W::from(v)` with W := Dual)."""
+        if not (gargs and self.tymaps and self.tymaps[-1]):
+            return None
+        norm = lambda t: re.sub(r"'\w+ ?", "", t).replace("mut ", "").strip()
+        cg = [norm(self.concrete_ty(t)) for t in gargs]
+        cands = [rr for rr in self.facts.all_fns() if rr.get("trait_item") == trait_item and norm(rr.get("self_ty") or "") == cg[0]]
+        if len(cands) > 1 and len(cg) > 1:
+            narrowed = [rr for rr in cands if cg[1] in [norm(x) for x in rr["sig"]]]
+            cands = narrowed or cands
+        return cands[0]["fn"] if len(cands) == 1 else None
 
     def collapse(self, v):
         """Alternatives that are all equal collapse to the single value. Numbers that agree in every field but carry
@@ -809,7 +836,18 @@ class Ev:
         return Rec(adt, fields)
 
     def ev_closure(self, e, env, depth):
+        if self.tymaps and self.tymaps[-1]:
+            # a closure made inside an inlined generic function may run after that function has returned (a lazy iterator element): it keeps the
+            # type-parameter substitution it was created under
+            return Clo(e["params"], {"k": "tyscope", "tymap": dict(self.tymaps[-1]), "e": e["body"], "ty": e["body"].get("ty"), "ln": e["body"].get("ln")}, env)
         return Clo(e["params"], e["body"], env)
+
+    def ev_tyscope(self, e, env, depth):
+        self.tymaps.append(e["tymap"])
+        try:
+            return self.eval(e["e"], env, depth)
+        finally:
+            self.tymaps.pop()
 
     def ev_block(self, e, env, depth):
         # blocks share the enclosing env; shadowing uses fresh ids so this is safe
@@ -1713,9 +1751,15 @@ class Ev:
             for p, a in zip(fv.params, args):
                 self.bind(p, a, env2)
             return self.eval(fv.body, env2, depth)
+        if isinstance(fv, Sym) and fv.tag[:1] in (("fn",), ("ctor",)) and len(fv.tag) == 2:
+            # a function item / constructor handed around as a value (`helper(x, Dual::new)`, `map_contained(self, <f64 as MathFuncs>::exp, ..)`): calling the
+            # parameter is calling that item
+            f = {"k": "path", "res": "def", "def": fv.tag[1], "resolved": fv.tag[1], "dk": "Ctor" if fv.tag[0] == "ctor" else "AssocFn", "ln": e.get("ln")}
         if f.get("k") != "path":
             raise Unsupported("indirect call at line %s" % e.get("ln"))
         d = f.get("resolved") or f.get("def", "")
+        if not f.get("resolved") and f.get("gargs") and self.facts.fn(d) is None:
+            d = self.resolve_generic(f.get("def", ""), f["gargs"]) or d
         dk = f.get("dk", "")
         args = [self.eval(a, env, depth) for a in e["args"]]
         for suffix, h in self.hooks.items():
@@ -1757,6 +1801,9 @@ class Ev:
             return args[0]
         if last in ("from", "into") and len(args) == 1 and isinstance(args[0], Poly) and args[0].order == 0 and not self.facts.fn(d):
             return args[0]            # lossless numeric widening
+        if last == "from" and len(args) == 1 and not self.facts.fn(d) and (e.get("ty") or "").startswith("std::vec::Vec<") and \
+                (e["args"][0].get("ty") or "").lstrip("&").startswith("["):
+            return args[0]            # Vec::from(slice) copies the slice, like to_vec()
         if last in ("try_from", "try_into") and len(args) == 1 and isinstance(args[0], Poly) and args[0].order == 0 and not self.facts.fn(d):
             return Sym("ctor", "Ok", args[0])
         if last == "from_iter" and len(args) == 1:
@@ -1792,6 +1839,7 @@ class Ev:
         if d.endswith("ndarray::Axis") or last == "Axis":
             return Sym("axis", vkey(args[0]))
         if self.facts.fn(d) is not None:
+            self._gargs = [self.concrete_ty(t) for t in f["gargs"]] if f.get("gargs") else None
             return self.apply_fn(d, args, depth)
         # opaque: an unmodelled external function of symbolic arguments (can only fail to match an expected form)
         return Sym("call", d, tuple(vkey(a) for a in args))
@@ -1809,6 +1857,26 @@ class Ev:
         for suffix, h in self.hooks.items():
             if not suffix.startswith("@") and d.endswith(suffix):
                 return h(self, [recv] + args, e)
+        if m in ("into_iter", "iter") and not args and isinstance(recv, Sym) and recv.tag[:2] in (("ctor", "Some"), ("ctor", "None")) and len(recv.tag) <= 3:
+            # an Option iterates over its payload once, or not at all
+            if recv.tag[1] == "None":
+                sq = Seq(Sym("empty"), lambda idx: Sym("never"))
+                sq.empty = True
+                return sq
+            sq = Seq(Sym("once", vkey(recv.tag[2])), lambda idx, v=recv.tag[2]: v)
+            sq.once = recv.tag[2]
+            return sq
+        if isinstance(recv, Seq) and m == "flatten" and not args and (getattr(recv, "empty", False) or getattr(recv, "once", None) is not None):
+            if getattr(recv, "empty", False):
+                return recv
+            inner = recv.once            # `Some(v).iter().flatten()` walks v
+            if isinstance(inner, Coll):
+                return inner.seq
+            el = self.elem_of(inner)
+            if el is not None:
+                return Seq(inner, el if callable(el) else (lambda idx, el=el: el))
+        if isinstance(recv, Seq) and getattr(recv, "empty", False) and m in ("all", "any"):
+            return Sym("bool", "true" if m == "all" else "false")
         if m in ("into_iter", "iter") and not args and not isinstance(recv, (Poly, Seq)):
             el = self.elem_of(recv)
             if el is not None:
@@ -2094,6 +2162,7 @@ class Ev:
                 u = union_vars(recv.fields.get("vars"), args[0].fields.get("vars"))
                 return Tup([Rec(recv.adt, dict(recv.fields, vars=u)), Rec(args[0].adt, dict(args[0].fields, vars=u))])
         if self.facts.fn(d) is not None:
+            self._gargs = [self.concrete_ty(t) for t in e["gargs"]] if e.get("gargs") else None
             return self.apply_fn(d, [recv] + args, depth)
         if m in ("unwrap", "expect") and isinstance(recv, (Tup, Rec, Poly)):
             return recv
@@ -2212,11 +2281,11 @@ def canon_seq(seq):
 
 
 def len_base(k):
-    """The container whose length `k` has: sorting in place keeps the number of entries, and the keys / values of a map are as many as its entries' source."""
+    """The container whose length `k` has: sorting in place keeps the number of entries, and a map has as many keys / values as entries."""
     if isinstance(k, tuple) and k[:2] == ("sym", "mut") and len(k) == 5 and k[2] in ("sort", "sort_keys", "sort_unstable", "reverse", "sort_by_key", "sort_by"):
         return len_base(k[3])
     if isinstance(k, tuple) and k[:2] == ("sym", "m") and len(k) == 5 and k[2] in ("keys", "values", "iter") and not k[4]:
-        return ("sym", "m", k[2], len_base(k[3]), ())
+        return len_base(k[3])          # a map has as many keys / values as entries
     return k
 
 
